@@ -18,3 +18,12 @@ pub mod f2 {
 pub mod f4 {
     include!("f4_decide.rs");
 }
+pub mod f6 {
+    include!("f6_lifecycle.rs");
+}
+pub mod f3 {
+    include!("f3_commit.rs");
+}
+pub mod xp {
+    include!("x_probe.rs");
+}
